@@ -164,7 +164,16 @@ func (r *gatewayController) buildCanaryHeaderHttpRoutes(rules []gatewayv1beta1.H
 	for i := range rules {
 		rule := rules[i]
 		if _, canaryRef := getServiceBackendRef(rule, r.conf.CanaryService); canaryRef != nil {
-			continue
+			_, stableRef := getServiceBackendRef(rule, r.conf.StableService)
+			if stableRef == nil {
+				// a canary rule generated by a previous match step
+				continue
+			}
+			// a user rule that still carries the canary backend of a previous weight step:
+			// restore it, as Finalise does, instead of dropping it
+			filterOutServiceBackendRef(&rule, r.conf.CanaryService)
+			stableRef.Weight = utilpointer.Int32(1)
+			setServiceBackendRef(&rule, *stableRef)
 		}
 		desired = append(desired, rule)
 		if _, stableRef := getServiceBackendRef(rule, r.conf.StableService); stableRef == nil {
